@@ -688,7 +688,10 @@ def oracle_C06(scn, tr):
             if ln.result != 'ERROR':
                 fails.append('line %r: over-long arguments answered %s' % (ln.text, ln.result))
             continue
+        typed_part = t[2:len(t) - len(args)].upper() if len(args) else t[2:].upper()
+        implicit_near = any(cc.implicit and typed_part.startswith(cc.name.upper().encode('latin-1')) for cc in scn.cmds())
         if not hw and c.w and not c.only_test and not any(v.access in (RW, WO) for v in c.vars) \
+                and (fc, fg) == ln.flags_end and not implicit_near \
                 and not (args[:1] == b'?' and (c.t or c.vars) and not c.implicit):
             fails.append('line %r: %d argument bytes fit the %d-byte buffer and command %s has a write handler, but it was not invoked (answer %s)' % (ln.text, len(args), asz, c.name, ln.result))
         for x in hw:
